@@ -263,30 +263,31 @@ Proof.
   - apply (sep_room (fs i) (fs j) o); [apply S; auto | exact Hr|]. apply f_live_room; [apply (O j Hj) | exact E].
 Qed.
 
-(* ---- allocate a block for the empty, block-less slot i *)
-Lemma fp_alloc ls fs nb i lim bytes :
-  tracks ls fs -> good nb fs -> i < K -> f_size (fs i) = 0 -> f_heap (fs i) = None ->
-  let f' := mk_fp nb 0 0 lim (Some (nb, bytes)) in
-  exists ls', ev_run ls [EAlloc nb bytes] = Some ls' /\ tracks ls' (set_reg fs i f') /\ good (S nb) (set_reg fs i f').
+(* ---- allocate a block (named b, not below the bound nb) for the empty, block-less slot i *)
+Lemma fp_alloc ls fs nb b i lim bytes :
+  tracks ls fs -> good nb fs -> i < K -> f_size (fs i) = 0 -> f_heap (fs i) = None -> nb <= b ->
+  let f' := mk_fp b 0 0 lim (Some (b, bytes)) in
+  exists ls', ev_run ls [EAlloc b bytes] = Some ls' /\ tracks ls' (set_reg fs i f') /\ good (S b) (set_reg fs i f').
 Proof.
-  intros T G Hi Hz Hh f'. pose proof T as (B & L). pose proof G as (Nz & O & Sp).
-  assert (Fresh : has_block nb ls = None).
-  { destruct (has_block nb ls) as [n|] eqn:E; [|reflexivity]. exfalso. apply (B nb n) in E. destruct E as (j & Hj & E).
-    unfold f_blk in E. destruct (f_heap (fs j)) as [[b m]|] eqn:Eh; [|discriminate].
-    destruct (Nat.eqb_spec nb b) as [<-|]; [|discriminate]. destruct (O j Hj) as (_ & _ & _ & D). destruct (D nb m Eh) as (_ & _ & ?). lia. }
-  destruct (step_alloc ls nb bytes Nz Fresh) as (ls' & E & B' & L').
+  intros T G Hi Hz Hh Hb f'. pose proof T as (B & L). pose proof G as (Nz & O & Sp).
+  assert (Bz : b <> 0) by lia.
+  assert (Fresh : has_block b ls = None).
+  { destruct (has_block b ls) as [n|] eqn:E; [|reflexivity]. exfalso. apply (B b n) in E. destruct E as (j & Hj & E).
+    unfold f_blk in E. destruct (f_heap (fs j)) as [[b' m]|] eqn:Eh; [|discriminate].
+    destruct (Nat.eqb_spec b b') as [<-|]; [|discriminate]. destruct (O j Hj) as (_ & _ & _ & D). destruct (D b m Eh) as (_ & _ & ?). lia. }
+  destruct (step_alloc ls b bytes Bz Fresh) as (ls' & E & B' & L').
   exists ls'. split; [cbn [ev_run]; now rewrite E|]. split; [split|].
-  - intros b n. rewrite B'. split.
-    + destruct (Nat.eqb_spec b nb) as [->|Nb].
+  - intros x n. rewrite B'. split.
+    + destruct (Nat.eqb_spec x b) as [->|Nb].
       * intros H. inversion H; subst. exists i. split; [exact Hi|]. rewrite set_reg_same. unfold f_blk, f'. cbn [f_heap]. now rewrite Nat.eqb_refl.
-      * intros H. apply (B b n) in H. destruct H as (j & Hj & H). exists j. split; [exact Hj|].
+      * intros H. apply (B x n) in H. destruct H as (j & Hj & H). exists j. split; [exact Hj|].
         destruct (Nat.eq_dec j i) as [->|Nj]; [unfold f_blk in H; rewrite Hh in H; discriminate | now rewrite set_reg_other].
     + intros (j & Hj & H). destruct (Nat.eq_dec j i) as [->|Nj].
-      * rewrite set_reg_same in H. unfold f_blk, f' in H. cbn [f_heap] in H. destruct (Nat.eqb b nb); [exact H | discriminate].
-      * rewrite set_reg_other in H by exact Nj. destruct (Nat.eqb_spec b nb) as [->|Nb].
-        -- exfalso. unfold f_blk in H. destruct (f_heap (fs j)) as [[b m]|] eqn:Eh; [|discriminate].
-           destruct (Nat.eqb_spec nb b) as [<-|]; [|discriminate]. destruct (O j Hj) as (_ & _ & _ & D). destruct (D nb m Eh) as (_ & _ & ?). lia.
-        -- apply (B b n). eauto.
+      * rewrite set_reg_same in H. unfold f_blk, f' in H. cbn [f_heap] in H. destruct (Nat.eqb x b); [exact H | discriminate].
+      * rewrite set_reg_other in H by exact Nj. destruct (Nat.eqb_spec x b) as [->|Nb].
+        -- exfalso. unfold f_blk in H. destruct (f_heap (fs j)) as [[b' m']|] eqn:Eh; [|discriminate].
+           destruct (Nat.eqb_spec b b') as [<-|]; [|discriminate]. destruct (O j Hj) as (_ & _ & _ & D). destruct (D b m' Eh) as (_ & _ & ?). lia.
+        -- apply (B x n). eauto.
   - intros o. rewrite L'. split.
     + intros H. apply (L o) in H. destruct H as (j & Hj & H). exists j. split; [exact Hj|].
       destruct (Nat.eq_dec j i) as [->|Nj]; [|now rewrite set_reg_other].
@@ -294,13 +295,13 @@ Proof.
     + intros (j & Hj & H). destruct (Nat.eq_dec j i) as [->|Nj].
       * rewrite set_reg_same in H. unfold f_live, f' in H. cbn in H. apply in_rng_spec in H. cbn in H. lia.
       * rewrite set_reg_other in H by exact Nj. apply (L o). eauto.
-  - apply good_update; [apply (good_mono nb (S nb) fs); [lia | exact G] | exact Hi | |].
+  - apply good_update; [apply (good_mono nb (S b) fs); [lia | exact G] | exact Hi | |].
     + unfold fp_ok, f'. cbn [f_size f_lim f_k f_heap]. split; [lia|]. split; [lia|]. split.
       * intros _. eauto.
-      * intros b n H. inversion H; subst. repeat split; lia.
+      * intros x n H. inversion H; subst. repeat split; lia.
     + intros j Hj Nj. destruct (O j Hj) as (_ & Hk & _ & D). split.
       * left. unfold f'. cbn [f_k]. lia.
-      * intros b n m H1 H2. unfold f' in H1. cbn [f_heap] in H1. injection H1 as Eb En. rewrite <- Eb in H2. destruct (D nb m H2) as (_ & _ & ?). lia.
+      * intros x n m H1 H2. unfold f' in H1. cbn [f_heap] in H1. injection H1 as Eb En. rewrite <- Eb in H2. destruct (D b m H2) as (_ & _ & ?). lia.
 Qed.
 
 (* ---- copy/move construction of the objects of slot s into the empty slot t *)
@@ -397,30 +398,30 @@ Lemma fp_ok_fp0 nb : nb <> 0 -> fp_ok nb fp0.
 Proof. intros H. unfold fp_ok, fp0. cbn. repeat split; try lia; try congruence; intros; discriminate. Qed.
 
 (* ---- relocation of slot i into a fresh block (vector growth), using the spare slot sp *)
-Lemma fp_relocate ls fs nb i sp lim bytes rel :
-  tracks ls fs -> good nb fs -> i < K -> sp < K -> i <> sp -> fs sp = fp0 -> f_size (fs i) <= lim ->
-  match f_heap (fs i) with None => rel = [] | Some (b, n) => rel = [EFree b] \/ rel = [EDealloc b n] end ->
-  let f' := mk_fp nb 0 (f_size (fs i)) lim (Some (nb, bytes)) in
-  exists ls', ev_run ls (EAlloc nb bytes :: xfer_evs (f_nm (fs i)) (nmk nb 0) 0 (f_size (fs i))
+Lemma fp_relocate ls fs nb b i sp lim bytes rel :
+  tracks ls fs -> good nb fs -> i < K -> sp < K -> i <> sp -> fs sp = fp0 -> f_size (fs i) <= lim -> nb <= b ->
+  match f_heap (fs i) with None => rel = [] | Some (b', n) => rel = [EFree b'] \/ rel = [EDealloc b' n] end ->
+  let f' := mk_fp b 0 (f_size (fs i)) lim (Some (b, bytes)) in
+  exists ls', ev_run ls (EAlloc b bytes :: xfer_evs (f_nm (fs i)) (nmk b 0) 0 (f_size (fs i))
                          ++ destroy_evs (f_nm (fs i)) 0 (f_size (fs i)) ++ rel) = Some ls' /\
-    tracks ls' (set_reg fs i f') /\ good (S nb) (set_reg fs i f').
+    tracks ls' (set_reg fs i f') /\ good (S b) (set_reg fs i f').
 Proof.
-  intros T G Hi Hsp Nisp Esp Hl Hrel f'.
-  destruct (fp_alloc ls fs nb sp lim bytes T G Hsp) as (l1 & E1 & T1 & G1); [now rewrite Esp | now rewrite Esp|].
-  set (fs1 := set_reg fs sp (mk_fp nb 0 0 lim (Some (nb, bytes)))) in *.
+  intros T G Hi Hsp Nisp Esp Hl Hb Hrel f'.
+  destruct (fp_alloc ls fs nb b sp lim bytes T G Hsp) as (l1 & E1 & T1 & G1); [now rewrite Esp | now rewrite Esp | exact Hb|].
+  set (fs1 := set_reg fs sp (mk_fp b 0 0 lim (Some (b, bytes)))) in *.
   assert (F1i : fs1 i = fs i) by (unfold fs1; now rewrite set_reg_other).
-  assert (F1s : fs1 sp = mk_fp nb 0 0 lim (Some (nb, bytes))) by (unfold fs1; now rewrite set_reg_same).
-  destruct (fp_xfer l1 fs1 (S nb) i sp T1 G1 Hi Hsp Nisp) as (l2 & E2 & T2 & G2); [now rewrite F1s | rewrite F1i, F1s; exact Hl|].
+  assert (F1s : fs1 sp = mk_fp b 0 0 lim (Some (b, bytes))) by (unfold fs1; now rewrite set_reg_same).
+  destruct (fp_xfer l1 fs1 (S b) i sp T1 G1 Hi Hsp Nisp) as (l2 & E2 & T2 & G2); [now rewrite F1s | rewrite F1i, F1s; exact Hl|].
   rewrite F1i, F1s in E2, T2, G2. unfold f_nm at 2 in E2. cbn [f_k f_off] in E2.
-  set (fs2 := set_reg fs1 sp (resize_fp (mk_fp nb 0 0 lim (Some (nb, bytes))) (f_size (fs i)))) in *.
+  set (fs2 := set_reg fs1 sp (resize_fp (mk_fp b 0 0 lim (Some (b, bytes))) (f_size (fs i)))) in *.
   assert (F2i : fs2 i = fs i) by (unfold fs2; now rewrite set_reg_other).
-  destruct (fp_destruct l2 fs2 (S nb) i fp0 rel T2 G2 Hi eq_refl eq_refl) as (l3 & E3 & T3 & G3).
+  destruct (fp_destruct l2 fs2 (S b) i fp0 rel T2 G2 Hi eq_refl eq_refl) as (l3 & E3 & T3 & G3).
   { apply fp_ok_fp0. lia. }
   { intros j _ _. apply sep_fp0. }
   { now rewrite F2i. }
   rewrite F2i in E3.
   exists l3. split.
-  - change (EAlloc nb bytes :: ?x) with ([EAlloc nb bytes] ++ x).
+  - change (EAlloc b bytes :: ?x) with ([EAlloc b bytes] ++ x).
     rewrite (ev_run_app_some _ _ _ _ E1), (ev_run_app_some _ _ _ _ E2). exact E3.
   - set (fs3 := set_reg fs2 i fp0) in *.
     assert (Ext : forall j, j < K -> set_reg fs i f' j = swap_slots fs3 i sp j).
